@@ -29,26 +29,6 @@
 //
 // Channel parts (<router>-chan): the token request carries grant_type (gtq) or
 // all parameters (allq) in the URL query instead of the body.
-//
-// Near-miss parts (<router>-near): for every live code the owner's fully correct
-// exchange with exactly ONE string replaced by a generated near miss of the right
-// value: redirect_uri (suffix- / prefix-extended with and without separator,
-// trailing slash, one character shorter, path case, "%2F", trailing space, empty,
-// repeated parameter, loopback port / host variants), code_verifier (padding,
-// base64 spelling, prefix, suffix, case, S256 transform, empty; 42 and 129
-// characters), the code string itself (character flipped / cut / appended,
-// padding, case, the request id sealed again under the provider's key = another
-// IV, sealed prefix / extension of the id, a sealed id of a request that never got
-// a code). The oracle compares the presented VALUES with the request's.
-//
-// Identity parts (<router>-ids): clients web / web2 / Web / we / xweb, pub / Pub /
-// pub2, jwt / jwt2 (same kid, different key) registered side by side, as owners
-// and as callers, also with the sibling's secret and with Basic credentials of
-// one client + form client_id of the owner.
-//
-// Enum parts (<router>-enum-s256on|off): code_challenge_method {no challenge,
-// S256, plain, absent, "s256", undefined} x op.Config.CodeMethodS256 x one client
-// per (authentication method x application type) as owner and caller.
 package c04
 
 import (
@@ -59,7 +39,6 @@ import (
 	"errors"
 	"fmt"
 	"net/url"
-	"os"
 	"slices"
 	"sort"
 	"strconv"
@@ -71,7 +50,6 @@ import (
 	jose "github.com/go-jose/go-jose/v4"
 
 	"github.com/zitadel/oidc/v3/pkg/oidc"
-	"github.com/zitadel/oidc/v3/pkg/op"
 
 	"verif/harness/engine"
 	"verif/harness/rig"
@@ -94,29 +72,18 @@ var (
 	slotUser   = [nSlots]string{"u1", "u2", "u1"}
 	slotNonce  = [nSlots]string{"n-slot0", "n-slot1", "n-slot2"}
 	slotState  = [nSlots]string{"st-0", "st-1", "st-2"}
-	// RFC 7636 verifiers: 43..128 unreserved characters. Slot 0 has the maximal, slot 1 the
-	// minimal length (a right verifier + one character is 129, a right verifier cut by one is
-	// 42 characters long); all of them contain '-', '_', '.', '~' and letters of both cases,
-	// and share their first 14 characters.
-	slotVerifier = [nSlots]string{mkVerifier(0, 128), mkVerifier(1, 43), mkVerifier(2, 64)}
-)
-
-func mkVerifier(slot, n int) string {
-	const pat = "aB-cD_eF.gH~0123456789"
-	s := fmt.Sprintf("verifier-slot%d-", slot)
-	for i := 0; len(s) < n; i++ {
-		s += string(pat[i%len(pat)])
+	// RFC 7636 verifiers: 43..128 unreserved characters
+	slotVerifier = [nSlots]string{
+		"verifier-slot0-AAAAAAAAAAAAAAAAAAAAAAAAAAAAAAAAAA",
+		"verifier-slot1-BBBBBBBBBBBBBBBBBBBBBBBBBBBBBBBBBB",
+		"verifier-slot2-CCCCCCCCCCCCCCCCCCCCCCCCCCCCCCCCCC",
 	}
-	return s
-}
+)
 
 const (
 	uriCB    = "https://rp.example/cb"
 	uriCB2   = "https://rp.example/cb2"
 	uriLocal = "http://localhost/cb"
-	// a loopback redirect_uri of a native client whose port is not the registered one
-	// (accepted at the authorization endpoint: RFC 8252 7.3)
-	uriLoop = "http://127.0.0.1:8123/cb"
 )
 
 // redirect URI used by the authorization request of client c in slot
@@ -149,254 +116,15 @@ func s256(v string) string {
 	return base64.RawURLEncoding.EncodeToString(h[:])
 }
 
-// challenge string sent with the authorization request. ch is the member of the
-// code_challenge_method enum the request uses: none (no challenge at all) | S256 |
-// plain | nomethod (challenge without method: plain by RFC 7636 4.3) | s256lc (the
-// method spelled "s256") | S512 (a method nobody defines).
+// challenge string sent with the authorization request
 func challengeOf(ch string, slot int) string {
 	switch ch {
-	case "S256", "s256lc", "S512":
+	case "S256":
 		return s256(slotVerifier[slot])
 	case "plain", "nomethod":
 		return slotVerifier[slot]
 	}
 	return ""
-}
-
-// methodParam is the code_challenge_method parameter of ch ("" = not sent)
-func methodParam(ch string) string {
-	switch ch {
-	case "S256", "plain", "S512":
-		return ch
-	case "s256lc":
-		return "s256"
-	}
-	return ""
-}
-
-// definedMethod: the statement (RFC 7636) says what "the verifier matches the challenge" means
-func definedMethod(ch string) bool {
-	return ch == "S256" || ch == "plain" || ch == "nomethod"
-}
-
-// ---------------------------------------------------------------------------
-// near-miss generators: every string the code exchange compares gets, from the
-// RIGHT value, the variants prefix-extended, suffix-extended (with and without a
-// separator), one character shorter, case-changed, containing the right value,
-// differently spelled / encoded, empty. A generator answers ok=false where the
-// variant does not exist for this value (or would equal it).
-
-func swapCase(s string) string {
-	b := []byte(s)
-	for i, c := range b {
-		switch {
-		case c >= 'a' && c <= 'z':
-			b[i] = c - 32
-		case c >= 'A' && c <= 'Z':
-			b[i] = c + 32
-		}
-	}
-	return string(b)
-}
-
-// base64 (standard alphabet) spelling of a base64url string
-func stdSpelling(s string) string { return strings.NewReplacer("-", "+", "_", "/").Replace(s) }
-
-func flipChar(s string, i int) string {
-	b := []byte(s)
-	if b[i] == 'A' {
-		b[i] = 'B'
-	} else {
-		b[i] = 'A'
-	}
-	return string(b)
-}
-
-// nearGroup: the family of a near-miss variant (signature component: one signature per
-// kind of tolerance, not per spelling)
-func nearGroup(variant string) string {
-	switch variant {
-	case "~suf", "~slash", "~sufslash", "~sufdot", "~sufcolon", "~query", "~frag", "~sp", "~pad", "~ext", "~chalpad":
-		return "suffix-extended"
-	case "~pre", "~suffixof", "~inside":
-		return "prefix-extended"
-	case "~short", "~half", "~empty", "~cut":
-		return "shortened"
-	case "~case", "~chalcase", "~hostcase":
-		return "case"
-	case "~enc2f", "~std", "~chalstd":
-		return "respelled"
-	case "~s256":
-		return "transformed"
-	case "~dupro", "~dupor", "~dupoo":
-		return "repeated"
-	case "~port", "~noport", "~lhost", "~reg":
-		return "loopback"
-	case "~flipl", "~flipf", "~flipm":
-		return "flipped"
-	case "~reseal", "~sealpre", "~sealext", "~seal":
-		return "resealed"
-	}
-	return "other"
-}
-
-var nearURINames = []string{"~empty", "~suf", "~slash", "~sufslash", "~sufdot", "~sufcolon", "~query", "~frag", "~short", "~pre",
-	"~suffixof", "~inside", "~case", "~hostcase", "~enc2f", "~sp", "~dupro", "~dupor", "~dupoo",
-	"~port", "~noport", "~lhost", "~reg"}
-
-// nearURI: the redirect_uri values (a parameter may be repeated) of variant name.
-// lenient: the presented value is the same URI under RFC 3986 normalisation, or one
-// of several presented values is the right one: the statement does not decide.
-func nearURI(name, right, other string) (vals []string, lenient, ok bool) {
-	u, err := url.Parse(right)
-	if err != nil {
-		return nil, false, false
-	}
-	one := func(v string) ([]string, bool, bool) { return []string{v}, false, v != right }
-	switch name {
-	case "~empty": // present but empty (missing is another variant)
-		return one("")
-	case "~suf":
-		return one(right + "x")
-	case "~slash":
-		return one(right + "/")
-	case "~sufslash":
-		return one(right + "/x")
-	case "~sufdot":
-		return one(right + ".x")
-	case "~sufcolon":
-		return one(right + ":x")
-	case "~query":
-		return one(right + "?x=1")
-	case "~frag":
-		return one(right + "#x")
-	case "~short":
-		return one(right[:len(right)-1])
-	case "~pre":
-		return one("x" + right)
-	case "~suffixof": // the right value is a suffix of the presented one
-		return one("https://evil.example/?u=" + right)
-	case "~inside": // ... is contained in the presented one
-		return one("https://evil.example/" + right + "/x")
-	case "~case": // paths are case-sensitive
-		return one(u.Scheme + "://" + u.Host + strings.ToUpper(u.Path))
-	case "~hostcase": // scheme and host are not
-		v := strings.ToUpper(u.Scheme+"://"+u.Host) + u.Path
-		return []string{v}, true, v != right
-	case "~enc2f": // "%2F" is not "/" (reserved character)
-		i := strings.LastIndex(right, "/")
-		return one(right[:i] + "%2F" + right[i+1:])
-	case "~sp":
-		return one(right + " ")
-	case "~dupro":
-		return []string{right, other}, true, true
-	case "~dupor":
-		return []string{other, right}, true, true
-	case "~dupoo":
-		return []string{other, other + "x"}, false, true
-	}
-	// variants of a URI with an explicit port (loopback redirect of a native client)
-	if u.Port() == "" {
-		return nil, false, false
-	}
-	n, _ := strconv.Atoi(u.Port())
-	switch name {
-	case "~port":
-		return one(u.Scheme + "://" + u.Hostname() + ":" + strconv.Itoa(n+1) + u.Path)
-	case "~noport":
-		return one(u.Scheme + "://" + u.Hostname() + u.Path)
-	case "~lhost":
-		h := "localhost"
-		if u.Hostname() == h {
-			h = "127.0.0.1"
-		}
-		return one(u.Scheme + "://" + h + ":" + u.Port() + u.Path)
-	case "~reg": // the REGISTERED loopback URI instead of the one the request used
-		return one(uriLocal)
-	}
-	return nil, false, false
-}
-
-var nearVerNames = []string{"~empty", "~pad", "~short", "~half", "~suf", "~pre", "~case", "~std", "~sp", "~s256", "~chalpad", "~chalstd", "~chalcase"}
-
-// nearVer: code_verifier variant name of the right verifier v / its challenge chal
-func nearVer(name, v, chal string) (string, bool) {
-	diff := func(x string) (string, bool) { return x, x != v && x != chal }
-	switch name {
-	case "~empty":
-		return "", true
-	case "~pad":
-		return diff(v + "=")
-	case "~short":
-		return diff(v[:len(v)-1])
-	case "~half":
-		return diff(v[:len(v)/2])
-	case "~suf":
-		return diff(v + "A")
-	case "~pre":
-		return diff("A" + v)
-	case "~case":
-		return diff(swapCase(v))
-	case "~std":
-		return diff(stdSpelling(v))
-	case "~sp":
-		return diff(v + " ")
-	case "~s256": // the S256 transform of the right verifier (for an S256 challenge that is "chal")
-		return diff(s256(v))
-	case "~chalpad":
-		return diff(chal + "=")
-	case "~chalstd": // the challenge in standard base64 with padding
-		x := stdSpelling(chal)
-		for len(x)%4 != 0 {
-			x += "="
-		}
-		return diff(x)
-	case "~chalcase":
-		return diff(swapCase(chal))
-	}
-	return "", false
-}
-
-var nearCodeNames = []string{"~flipl", "~flipf", "~flipm", "~cut", "~ext", "~pad", "~sp", "~pre", "~case", "~reseal", "~sealpre", "~sealext"}
-
-// nearCode: variant name of the issued code (a sealed request id). seal is the
-// provider's own Crypto (same key, fresh IV).
-func nearCode(name, code, reqID string, seal func(string) (string, error)) (string, bool) {
-	diff := func(x string) (string, bool) { return x, x != code }
-	sealed := func(id string) (string, bool) {
-		x, err := seal(id)
-		if err != nil {
-			return "", false
-		}
-		return diff(x)
-	}
-	switch name {
-	case "~flipl":
-		return diff(flipChar(code, len(code)-1))
-	case "~flipf":
-		return diff(flipChar(code, 0))
-	case "~flipm":
-		return diff(flipChar(code, len(code)/2))
-	case "~cut": // AES-CFB: the cut code is the sealed request id without its last character
-		return diff(code[:len(code)-1])
-	case "~ext":
-		return diff(code + "A")
-	case "~pad":
-		return diff(code + "=")
-	case "~sp":
-		return diff(code + " ")
-	case "~pre":
-		return diff("A" + code)
-	case "~case":
-		return diff(swapCase(code))
-	case "~reseal": // the same request id sealed again under the same key: different IV, never handed out
-		return sealed(reqID)
-	case "~sealpre": // sealed id that is a prefix of the live one
-		return sealed(reqID[:len(reqID)-1])
-	case "~sealext": // sealed id the live one is a prefix of
-		return sealed(reqID + "0")
-	}
-	return "", false
 }
 
 // ---------------------------------------------------------------------------
@@ -405,10 +133,10 @@ func nearCode(name, code, reqID string, seal func(string) (string, error)) (stri
 type caller struct {
 	label  string // op label component
 	client string // the client the caller authenticates as (public: identifies as)
-	cred   string // right | wrong | none | swap (the secret of a client with a similar id)
-	// claimOwner: the caller authenticates with its own credentials (private_key_jwt
-	// assertion or Basic header) and ADDITIONALLY sends a form client_id naming
-	// another client: the owner of the presented code
+	cred   string // right | wrong | none
+	// claimOwner: the caller authenticates with its own (private_key_jwt)
+	// assertion and ADDITIONALLY sends a form client_id naming another client:
+	// the owner of the presented code
 	claimOwner bool
 }
 
@@ -420,43 +148,28 @@ func (c caller) claimed(owner string) string {
 	return owner
 }
 
+func (c caller) public() bool { return c.client == "pub" }
+
 // credOK: the caller proves (public: states) to be c.client
 func (c caller) credOK() bool { return c.cred == "right" }
 
-// private_key_jwt clients: key fixture registered under kid jk2 and an unregistered one.
-// jwt2's wrong key is the key registered for jwt under the same kid.
-func assertKeys(client string) (good, wrong string) {
-	if client == "jwt2" {
-		return "p256c", "p256b"
-	}
-	return "p256b", "p256a"
-}
-
 var (
-	assertMu    sync.Mutex
-	assertCache = map[string][2]string{}
+	assertOnce              sync.Once
+	assertGood, assertWrong string
 )
 
-func assertions(client string) (string, string) {
-	assertMu.Lock()
-	defer assertMu.Unlock()
-	if a, ok := assertCache[client]; ok {
-		return a[0], a[1]
-	}
-	now := engine.Epoch.Add(stepOffset)
-	payload, _ := json.Marshal(map[string]any{
-		"iss": client, "sub": client, "aud": []string{rig.Issuer},
-		"iat": now.Unix(), "exp": now.Add(5 * time.Minute).Unix(),
+func assertions() (string, string) {
+	assertOnce.Do(func() {
+		now := engine.Epoch.Add(stepOffset)
+		payload, _ := json.Marshal(map[string]any{
+			"iss": "jwt", "sub": "jwt", "aud": []string{rig.Issuer},
+			"iat": now.Unix(), "exp": now.Add(5 * time.Minute).Unix(),
+		})
+		assertGood = keys.SignCompact(keys.Get("p256b"), jose.ES256, "jk2", payload)
+		assertWrong = keys.SignCompact(keys.Get("p256a"), jose.ES256, "jk2", payload) // unregistered key
 	})
-	g, w := assertKeys(client)
-	a := [2]string{keys.SignCompact(keys.Get(g), jose.ES256, "jk2", payload),
-		keys.SignCompact(keys.Get(w), jose.ES256, "jk2", payload)} // second: not the key registered for this client
-	assertCache[client] = a
-	return a[0], a[1]
+	return assertGood, assertWrong
 }
-
-// a client whose id is a near miss of id (its secret is what cred "swap" presents)
-var swapOf = map[string]string{"web": "web2", "web2": "web", "Web": "web", "we": "web", "xweb": "web"}
 
 // apply puts the caller's identification / credentials into the request
 func (c caller) apply(cfg *refstore.Config, f url.Values, h map[string]string, owner string) {
@@ -467,39 +180,33 @@ func (c caller) apply(cfg *refstore.Config, f url.Values, h map[string]string, o
 	if cl == nil { // anonymous caller: no identification at all
 		return
 	}
-	secret := cl.Secret
-	switch c.cred {
-	case "wrong":
-		secret = "not-the-secret"
-	case "swap":
-		secret = "not-the-secret"
-		if o := cfg.Clients[swapOf[c.client]]; o != nil {
-			secret = o.Secret
-		}
-	}
 	switch cl.Method {
 	case oidc.AuthMethodBasic:
 		switch c.cred {
-		case "right", "wrong", "swap":
-			h["Authorization"] = rig.Basic(c.client, secret)
+		case "right":
+			h["Authorization"] = rig.Basic(c.client, cl.Secret)
+		case "wrong":
+			h["Authorization"] = rig.Basic(c.client, "not-the-secret")
 		default:
 			f.Set("client_id", c.client)
 		}
 	case oidc.AuthMethodPost:
 		f.Set("client_id", c.client)
 		switch c.cred {
-		case "right", "wrong", "swap":
-			f.Set("client_secret", secret)
+		case "right":
+			f.Set("client_secret", cl.Secret)
+		case "wrong":
+			f.Set("client_secret", "not-the-secret")
 		}
 	case oidc.AuthMethodNone:
 		f.Set("client_id", c.client)
 	case oidc.AuthMethodPrivateKeyJWT:
-		good, wrong := assertions(c.client)
+		good, wrong := assertions()
 		switch c.cred {
 		case "right":
 			f.Set("client_assertion_type", oidc.ClientAssertionTypeJWTAssertion)
 			f.Set("client_assertion", good)
-		case "wrong", "swap":
+		case "wrong":
 			f.Set("client_assertion_type", oidc.ClientAssertionTypeJWTAssertion)
 			f.Set("client_assertion", wrong)
 		default:
@@ -508,14 +215,11 @@ func (c caller) apply(cfg *refstore.Config, f url.Values, h map[string]string, o
 	}
 }
 
-// callersFor: "<client>" = the client with right / wrong / no credentials (a public
-// client, web2 and api: right only; anon: none), "<client>/<cred>" = one variant,
-// "<client>+owner" = right credentials + form client_id of the code's owner.
 func callersFor(clients ...string) []caller {
 	var out []caller
 	for _, c := range clients {
-		if cl, ok := strings.CutSuffix(c, "+owner"); ok {
-			out = append(out, caller{label: c + "/right", client: cl, cred: "right", claimOwner: true})
+		if c == "jwt+owner" { // valid assertion of jwt + client_id of the code's owner
+			out = append(out, caller{label: c + "/right", client: "jwt", cred: "right", claimOwner: true})
 			continue
 		}
 		creds := []string{"right", "wrong", "none"}
@@ -537,82 +241,13 @@ func callersFor(clients ...string) []caller {
 }
 
 // ---------------------------------------------------------------------------
-// client registrations of the parts that need more than rig.DefaultConfig
-
-var codeGrants = []oidc.GrantType{oidc.GrantTypeCode, oidc.GrantTypeRefreshToken}
-
-func addClient(cfg *refstore.Config, id string, m oidc.AuthMethod, app op.ApplicationType, keyName string) {
-	cl := &refstore.Client{ID: id, Redirects: []string{uriCB, uriCB2}, AppType: app, Method: m,
-		RespTypes: []oidc.ResponseType{oidc.ResponseTypeCode}, Grants: codeGrants}
-	switch m {
-	case oidc.AuthMethodBasic, oidc.AuthMethodPost:
-		cl.Secret = "secret-" + id
-	case oidc.AuthMethodPrivateKeyJWT:
-		cl.Keys = map[string]*jose.JSONWebKey{"jk2": rig.PubJWK(keys.Get(keyName), "jk2")}
-	}
-	cfg.Clients[id] = cl
-}
-
-// idsConfig: client ids that are prefixes / suffixes / case variants of each other,
-// registered side by side (web, web2, pub, jwt come from the default fixture).
-func idsConfig() *refstore.Config {
-	cfg := rig.DefaultConfig()
-	for _, id := range []string{"Web", "we", "xweb"} {
-		addClient(cfg, id, oidc.AuthMethodBasic, op.ApplicationTypeWeb, "")
-	}
-	for _, id := range []string{"Pub", "pub2"} {
-		addClient(cfg, id, oidc.AuthMethodNone, op.ApplicationTypeNative, "")
-	}
-	addClient(cfg, "jwt2", oidc.AuthMethodPrivateKeyJWT, op.ApplicationTypeWeb, "p256c") // same kid as jwt's key, another key
-	return cfg
-}
-
-var (
-	enumMethods = []struct {
-		name string
-		m    oidc.AuthMethod
-	}{{"basic", oidc.AuthMethodBasic}, {"post", oidc.AuthMethodPost}, {"none", oidc.AuthMethodNone}, {"pkjwt", oidc.AuthMethodPrivateKeyJWT}}
-	enumApps = []struct {
-		name string
-		a    op.ApplicationType
-	}{{"web", op.ApplicationTypeWeb}, {"native", op.ApplicationTypeNative}, {"ua", op.ApplicationTypeUserAgent}}
-)
-
-// enumConfig: one client per (authentication method x application type)
-func enumConfig() *refstore.Config {
-	cfg := rig.DefaultConfig()
-	for _, id := range enumClients() {
-		f := strings.Split(id, "-")
-		for _, m := range enumMethods {
-			for _, a := range enumApps {
-				if m.name == f[1] && a.name == f[2] {
-					addClient(cfg, id, m.m, a.a, "p256b")
-				}
-			}
-		}
-	}
-	return cfg
-}
-
-func enumClients() []string {
-	var out []string
-	for _, m := range enumMethods {
-		for _, a := range enumApps {
-			out = append(out, "m-"+m.name+"-"+a.name)
-		}
-	}
-	return out
-}
-
-// ---------------------------------------------------------------------------
 // state
 
 type mreq struct {
 	ID     string // real id, learned from the login redirect
 	Client string
-	Ch     string // none | S256 | plain | nomethod | s256lc | S512 (see challengeOf)
+	Ch     string // none | S256 | plain | nomethod
 	Slot   int
-	URI    string // the redirect_uri the authorization request used
 	Done   bool // reference automaton: user has authenticated
 	Gone   bool // reference automaton: consumed by a successful exchange
 	// Unsure: a request that referred to this authorization request (callback, or
@@ -659,17 +294,6 @@ type part struct {
 	chans       []string // parameter channels of the token request beyond "body": gtq, allq
 	maxFaults   int      // faulted operations per history (0: the alphabet has no faulty operations)
 	kinds       []string // error kinds of an injected storage failure: plain, deadline
-	// near: the near-miss generators. For every live code one exchange per variant of
-	// the redirect_uri, of the code_verifier and of the code string itself, by the
-	// code's owner with right credentials and everything else right (deviation bound 1);
-	// for every live request a freshly sealed, never handed out code naming it.
-	near     bool
-	loopURIs bool                    // public clients additionally authorize with a loopback redirect_uri on an unregistered port
-	s256Off  bool                    // op.Config.CodeMethodS256 off (nothing advertised in code_challenge_methods_supported)
-	plainS2  bool                    // verifier alphabet of a plain challenge also has the S256 transform of the right verifier
-	mkCfg    func() *refstore.Config // client registrations (nil: rig.DefaultConfig)
-	cfg      *refstore.Config        // one instance of them for the oracle's look-ups
-	ncov     map[string]int          // near-miss variant -> executions
 
 	c      *engine.Check
 	probes chan *rig.Rig // rigs for the fault-free probe runs of ops()
@@ -679,24 +303,6 @@ type part struct {
 
 func (p *part) routerName() string {
 	return rig.Routers[p.router]
-}
-
-func (p *part) config() *refstore.Config {
-	if p.mkCfg != nil {
-		return p.mkCfg()
-	}
-	return rig.DefaultConfig()
-}
-
-// public: the client authenticates with method none
-func (p *part) public(client string) bool {
-	cl := p.cfg.Clients[client]
-	return cl != nil && cl.Method == oidc.AuthMethodNone
-}
-
-func (p *part) hasCaller(label string) bool {
-	_, ok := p.caller(label)
-	return ok
 }
 
 // ---------------------------------------------------------------------------
@@ -715,13 +321,8 @@ type faultPlan struct {
 }
 
 func mkErr(kind string) error {
-	switch kind {
-	case "deadline":
+	if kind == "deadline" {
 		return context.DeadlineExceeded
-	case "canceled":
-		return context.Canceled
-	case "oidc": // a storage may answer with the library's own error type (op.Storage documents *oidc.Error for several calls)
-		return oidc.ErrInvalidGrant().WithDescription("c04: injected storage failure")
 	}
 	return errors.New("c04: injected storage failure")
 }
@@ -747,7 +348,7 @@ func splitFault(op string) (string, *faultPlan, error) {
 	fp := &faultPlan{occ: 1, kind: "plain"}
 	suffix, kind, ok := strings.Cut(suffix, "/")
 	if ok {
-		if !slices.Contains([]string{"plain", "deadline", "canceled", "oidc"}, kind) {
+		if kind != "deadline" && kind != "plain" {
 			return base, nil, fmt.Errorf("unknown error kind %q", kind)
 		}
 		fp.kind = kind
@@ -855,9 +456,6 @@ func (p *part) baseOps(s S) []string {
 		for _, c := range p.authClients {
 			for _, ch := range p.chs {
 				ops = append(ops, "A:"+c+":"+ch)
-				if p.loopURIs && p.public(c) && ch != "none" {
-					ops = append(ops, "A:"+c+":"+ch+":loop")
-				}
 			}
 		}
 	}
@@ -897,13 +495,10 @@ func (p *part) baseOps(s S) []string {
 		if k < len(s.Codes) {
 			kl = strconv.Itoa(k)
 			switch s.Reqs[s.Codes[k].Req].Ch {
-			case "S256", "s256lc", "S512":
+			case "S256":
 				vers = []string{"own", "none", "other", "chal"}
 			case "plain", "nomethod":
 				vers = []string{"own", "none", "other"}
-				if p.plainS2 {
-					vers = append(vers, "~s256")
-				}
 			}
 		} else {
 			us = uris[:1]
@@ -918,54 +513,6 @@ func (p *part) baseOps(s S) []string {
 				}
 			}
 		}
-	}
-	if p.near {
-		ops = append(ops, p.nearOps(s)...)
-	}
-	return ops
-}
-
-// nearOps: deviation bound 1 around the fully correct exchange of every live code
-func (p *part) nearOps(s S) []string {
-	var ops []string
-	for k, code := range s.Codes {
-		rq := s.Reqs[code.Req]
-		owner := rq.Client + "/right"
-		if code.Redeemed || rq.Gone || !p.hasCaller(owner) {
-			continue
-		}
-		kl, ver0 := strconv.Itoa(k), "none"
-		if rq.Ch != "none" {
-			ver0 = "own"
-		}
-		for _, n := range nearURINames {
-			if _, _, ok := nearURI(n, rq.URI, otherURI(rq.Client, rq.URI)); ok {
-				ops = append(ops, "X:"+kl+":"+owner+":"+n+":"+ver0)
-			}
-		}
-		if rq.Ch != "none" {
-			for _, n := range nearVerNames {
-				if _, ok := nearVer(n, slotVerifier[rq.Slot], challengeOf(rq.Ch, rq.Slot)); ok {
-					ops = append(ops, "X:"+kl+":"+owner+":right:"+n)
-				}
-			}
-		}
-		for _, n := range nearCodeNames {
-			if _, ok := nearCode(n, code.Code, rq.ID, func(id string) (string, error) { return "sealed:" + id, nil }); ok {
-				ops = append(ops, "X:"+kl+n+":"+owner+":right:"+ver0)
-			}
-		}
-	}
-	for i, rq := range s.Reqs {
-		owner := rq.Client + "/right"
-		if rq.Gone || !p.hasCaller(owner) {
-			continue
-		}
-		ver0 := "none"
-		if rq.Ch != "none" {
-			ver0 = "own"
-		}
-		ops = append(ops, "X:r"+strconv.Itoa(i)+"~seal:"+owner+":right:"+ver0)
 	}
 	return ops
 }
@@ -984,10 +531,7 @@ func (p *part) newRig() *rig.Rig {
 	if p.postOff {
 		cfg.AuthMethodPost = false
 	}
-	if p.s256Off {
-		cfg.CodeMethodS256 = false
-	}
-	return rig.MustNew(rig.Opts{OP: cfg, Cfg: p.config()})
+	return rig.MustNew(rig.Opts{OP: cfg})
 }
 
 func (p *part) newStep(c *engine.Check) func(int) func(S, string) (S, engine.Result) {
@@ -1035,31 +579,20 @@ func (p *part) exec(r *rig.Rig, s *S, op string, fp *faultPlan) engine.Result {
 	switch f[0] {
 	case "A":
 		client, ch, slot := f[1], f[2], len(s.Reqs)
-		uri := reqURI(client, slot)
-		if len(f) > 3 && f[3] == "loop" {
-			uri = uriLoop
-		}
-		q := url.Values{"client_id": {client}, "redirect_uri": {uri}, "response_type": {"code"},
+		q := url.Values{"client_id": {client}, "redirect_uri": {reqURI(client, slot)}, "response_type": {"code"},
 			"scope": {slotScopes[slot]}, "state": {slotState[slot]}, "nonce": {slotNonce[slot]}}
 		if ch != "none" {
 			q.Set("code_challenge", challengeOf(ch, slot))
-			if m := methodParam(ch); m != "" {
-				q.Set("code_challenge_method", m)
+			if ch != "nomethod" {
+				q.Set("code_challenge_method", ch)
 			}
 		}
 		id, resp := r.Authorize(p.router, q)
-		if id == "" && len(f) > 3 { // a redirect_uri that is not literally registered: what the authorization endpoint accepts is C03's business
-			return engine.OK("authorize-unregistered-loopback-port", obsClass(resp))
-		}
-		if id == "" && ch != "none" && (!definedMethod(ch) || p.s256Off) {
-			// a provider may refuse a transformation it does not know / does not advertise (RFC 7636 4.4.1)
-			return engine.OK("authorize-unsupported-challenge-method", obsClass(resp))
-		}
 		if id == "" {
 			return engine.Bad("authorize", obsClass(resp), "C04/baseline-refused/"+rn+"/authorize",
 				fmt.Sprintf("a well-formed authorization request of %s (%s) did not reach the login redirect: %d %s", client, ch, resp.Status, clip(resp.Body)))
 		}
-		s.Reqs = append(s.Reqs, mreq{ID: id, Client: client, Ch: ch, Slot: slot, URI: uri})
+		s.Reqs = append(s.Reqs, mreq{ID: id, Client: client, Ch: ch, Slot: slot})
 		return engine.OK("authorize", "login-redirect")
 	case "L":
 		i, _ := strconv.Atoi(f[1])
@@ -1124,87 +657,11 @@ type verdict struct {
 	class  string // input class for the signature
 }
 
-// codeRef: what the code parameter of an exchange is made from
-type codeRef struct {
-	k    int    // index of an issued code (-1: none)
-	req  int    // index of the request a never-issued code names (-1: none)
-	mut  string // near-miss variant of code k / "~seal" of request req
-	kind string // issued | near | garbage | absent
-}
-
-func parseCode(f string, s *S) (codeRef, bool) {
-	switch f {
-	case "g":
-		return codeRef{k: -1, req: -1, kind: "garbage"}, true
-	case "e":
-		return codeRef{k: -1, req: -1, kind: "absent"}, true
-	}
-	base, mut, near := strings.Cut(f, "~")
-	if near {
-		mut = "~" + mut
-	}
-	if rest, ok := strings.CutPrefix(base, "r"); ok {
-		i, err := strconv.Atoi(rest)
-		if err != nil || i < 0 || i >= len(s.Reqs) || mut != "~seal" {
-			return codeRef{}, false
-		}
-		return codeRef{k: -1, req: i, mut: mut, kind: "near"}, true
-	}
-	k, err := strconv.Atoi(base)
-	if err != nil || k < 0 || k >= len(s.Codes) {
-		return codeRef{}, false
-	}
-	if near {
-		return codeRef{k: k, req: s.Codes[k].Req, mut: mut, kind: "near"}, true
-	}
-	return codeRef{k: k, req: s.Codes[k].Req, kind: "issued"}, true
-}
-
-// uriVals: the redirect_uri values variant name presents for request rq
-func (p *part) uriVals(name string, rq mreq) (vals []string, lenient, ok bool) {
-	switch name {
-	case "right":
-		return []string{rq.URI}, false, true
-	case "other":
-		return []string{otherURI(rq.Client, rq.URI)}, false, true
-	case "missing":
-		return nil, false, true
-	}
-	return nearURI(name, rq.URI, otherURI(rq.Client, rq.URI))
-}
-
-// verVal: the code_verifier variant name presents for request rq (present=false: no parameter)
-func (p *part) verVal(name string, rq mreq) (v string, present, ok bool) {
-	switch name {
-	case "none":
-		return "", false, true
-	case "own":
-		return slotVerifier[rq.Slot], true, true
-	case "other": // the verifier that belongs to another request of the same history
-		if rq.Slot == 0 {
-			return slotVerifier[1], true, true
-		}
-		return slotVerifier[0], true, true
-	case "chal":
-		c := challengeOf(rq.Ch, rq.Slot)
-		return c, c != "", true
-	}
-	chal := challengeOf(rq.Ch, rq.Slot)
-	if chal == "" { // near misses of a challenge that does not exist
-		return "", false, false
-	}
-	v, ok = nearVer(name, slotVerifier[rq.Slot], chal)
-	return v, true, ok
-}
-
-func (p *part) judge(s *S, cr codeRef, ca caller, uri, ver, channel string) verdict {
-	switch cr.kind {
-	case "garbage", "absent":
+func (p *part) judge(s *S, k int, ca caller, uri, ver, channel string) verdict {
+	if k < 0 {
 		return verdict{"refuse", "x-refuse-unknown-code", "unknown-code", "garbage-code"}
-	case "near": // a string that was never handed out, however close to one that was
-		return verdict{"refuse", "x-refuse-near-code", "unknown-code", "near-code-" + nearGroup(cr.mut)}
 	}
-	code := s.Codes[cr.k]
+	code := s.Codes[k]
 	rq := s.Reqs[code.Req]
 	either := ""
 	// request completed
@@ -1231,9 +688,6 @@ func (p *part) judge(s *S, cr codeRef, ca caller, uri, ver, channel string) verd
 			cl = "unauthenticated"
 		} else if ca.claimOwner {
 			cl = "assertion-with-owner-client-id"
-			if p.cfg.Clients[ca.client] != nil && p.cfg.Clients[ca.client].Method == oidc.AuthMethodBasic {
-				cl = "basic-with-owner-client-id"
-			}
 		}
 		return verdict{"refuse", "x-refuse-client", "client", cl}
 	}
@@ -1246,68 +700,41 @@ func (p *part) judge(s *S, cr codeRef, ca caller, uri, ver, channel string) verd
 	if !ca.credOK() {
 		return verdict{"refuse", "x-refuse-client", "client", "unauthenticated"}
 	}
-	if cl := p.cfg.Clients[ca.client]; p.postOff && cl != nil && cl.Method == oidc.AuthMethodPost {
+	if p.postOff && ca.client == "post" {
 		either = "x-either-post-auth-disabled" // provider cannot authenticate this client at all
 	}
-	// redirect uri: the presented VALUE equals the one the request used
-	vals, lenient, _ := p.uriVals(uri, rq)
-	if !(len(vals) == 1 && vals[0] == rq.URI) {
-		switch {
-		case lenient:
-			either = "x-either-uri-equivalent-or-repeated"
-		case strings.HasPrefix(uri, "~"):
-			return verdict{"refuse", "x-refuse-near-uri", "redirect-uri", "near-uri-" + nearGroup(uri)}
-		default:
-			return verdict{"refuse", "x-refuse-uri", "redirect-uri", uri + "-uri"}
-		}
+	// redirect uri
+	if uri != "right" {
+		return verdict{"refuse", "x-refuse-uri", "redirect-uri", uri + "-uri"}
 	}
 	// PKCE
 	kind := "confidential"
-	if p.public(ca.client) {
+	if ca.public() {
 		kind = "public"
 	}
-	presented, present, _ := p.verVal(ver, rq)
-	nearV := strings.HasPrefix(ver, "~")
 	if rq.Ch == "none" {
-		if p.public(ca.client) {
+		if ca.public() {
 			return verdict{"refuse", "x-refuse-pkce", "pkce", "public-no-challenge"}
 		}
-		if present {
+		if ver != "none" {
 			either = "x-either-verifier-without-challenge"
 		}
 	} else {
-		if !present || presented == "" {
-			if nearV {
-				return verdict{"refuse", "x-refuse-near-verifier", "pkce", "near-verifier-" + nearGroup(ver)}
-			}
+		if ver == "none" {
 			return verdict{"refuse", "x-refuse-pkce", "pkce", kind + "-missing-verifier"}
 		}
+		presented := p.verifier(rq, ver)
 		chal := challengeOf(rq.Ch, rq.Slot)
-		var match bool
-		switch rq.Ch {
-		case "S256":
+		match := presented == chal
+		if rq.Ch == "S256" {
 			match = s256(presented) == chal
-		case "plain", "nomethod":
-			match = presented == chal
-		default:
-			// a method the statement does not define: a verifier that matches under neither
-			// defined transformation cannot "match"; one that does is left open
-			match = presented == chal || s256(presented) == chal
-			if match {
-				either = "x-either-undefined-challenge-method"
-			}
 		}
 		if !match {
-			switch {
-			case nearV:
-				return verdict{"refuse", "x-refuse-near-verifier", "pkce", "near-verifier-" + nearGroup(ver)}
-			case ver == "chal":
-				return verdict{"refuse", "x-refuse-pkce", "pkce", "challenge-as-verifier"}
+			cl := "wrong-verifier"
+			if ver == "chal" {
+				cl = "challenge-as-verifier"
 			}
-			return verdict{"refuse", "x-refuse-pkce", "pkce", "wrong-verifier"}
-		}
-		if p.s256Off && either == "" { // the provider advertises no PKCE method at all: it may refuse to play
-			either = "x-either-pkce-not-advertised"
+			return verdict{"refuse", "x-refuse-pkce", "pkce", cl}
 		}
 	}
 	if either != "" {
@@ -1316,62 +743,62 @@ func (p *part) judge(s *S, cr codeRef, ca caller, uri, ver, channel string) verd
 	return verdict{"serve", "x-serve", "", ""}
 }
 
+func (p *part) verifier(rq mreq, ver string) string {
+	switch ver {
+	case "own":
+		return slotVerifier[rq.Slot]
+	case "other": // the verifier that belongs to another request of the same history
+		if rq.Slot == 0 {
+			return slotVerifier[1]
+		}
+		return slotVerifier[0]
+	case "chal":
+		return challengeOf(rq.Ch, rq.Slot)
+	}
+	return ""
+}
+
 func (p *part) exchange(r *rig.Rig, s *S, f []string, fp *faultPlan) engine.Result {
 	rn := p.routerName()
-	cr, okc := parseCode(f[1], s)
+	k := -1
+	if f[1] != "g" && f[1] != "e" {
+		k, _ = strconv.Atoi(f[1])
+	}
 	ca, ok := p.caller(f[2])
-	if !ok || !okc {
+	if !ok || k >= len(s.Codes) {
 		return engine.Result{Rule: "internal", Outcome: "bad-op"}
 	}
-	k := cr.k
 	uri, ver, channel := f[3], f[4], "body"
 	if len(f) > 5 {
 		channel = f[5]
 	}
+	v := p.judge(s, k, ca, uri, ver, channel)
 
 	// build the request
 	codeStr := "Z2FyYmFnZS1jb2RlLW5ldmVyLWlzc3VlZA"
-	rq := mreq{Client: ca.client, Ch: "none", URI: uriCB}
-	if cr.req >= 0 {
-		rq = s.Reqs[cr.req]
-	}
-	switch {
-	case cr.kind == "issued":
+	right := uriCB
+	rq := mreq{Client: ca.client, Ch: "none"}
+	if k >= 0 {
 		codeStr = s.Codes[k].Code
-	case cr.kind == "near" && k >= 0:
-		codeStr, ok = nearCode(cr.mut, s.Codes[k].Code, rq.ID, r.Provider.Crypto().Encrypt)
-	case cr.kind == "near":
-		codeStr, ok = nearCode("~reseal", "", rq.ID, r.Provider.Crypto().Encrypt)
+		rq = s.Reqs[s.Codes[k].Req]
+		right = reqURI(rq.Client, rq.Slot)
 	}
-	vals, _, oku := p.uriVals(uri, rq)
-	pv, present, okv := p.verVal(ver, rq)
-	if !ok || !oku || !okv {
-		return engine.Result{Rule: "internal", Outcome: "bad-op"}
-	}
-	v := p.judge(s, cr, ca, uri, ver, channel)
-	if p.ncov != nil {
-		p.mu.Lock()
-		for _, n := range []string{"uri " + uri, "verifier " + ver, "code " + cr.mut} {
-			if strings.Contains(n, "~") {
-				p.ncov[n]++
-			}
-		}
-		p.mu.Unlock()
-	}
-
 	form := url.Values{"grant_type": {"authorization_code"}, "code": {codeStr}}
-	if cr.kind == "absent" {
+	if f[1] == "e" {
 		form.Del("code")
 	}
-	for _, u := range vals {
-		form.Add("redirect_uri", u)
+	switch uri {
+	case "right":
+		form.Set("redirect_uri", right)
+	case "other":
+		form.Set("redirect_uri", otherURI(rq.Client, right))
 	}
-	if present {
+	if pv := p.verifier(rq, ver); pv != "" {
 		form.Set("code_verifier", pv)
 	}
 	hdr := map[string]string{}
 	owner := ""
-	if cr.req >= 0 {
+	if k >= 0 {
 		owner = rq.Client
 	}
 	ca.apply(r.Core.Cfg, form, hdr, owner)
@@ -1391,16 +818,14 @@ func (p *part) exchange(r *rig.Rig, s *S, f []string, fp *faultPlan) engine.Resu
 	faulted := fp != nil && fp.fired
 	if tokens && k >= 0 {
 		s.Codes[k].Redeemed = true
-	}
-	if tokens && cr.req >= 0 {
-		s.Reqs[cr.req].Gone = true
+		s.Reqs[s.Codes[k].Req].Gone = true
 	}
 	if faulted {
 		// exactly one storage call of this request failed. Tokens nevertheless: the
 		// request counts like any success (all conjuncts must hold, code redeemed).
 		// An error: nothing is owed, now or later (the request becomes unsure).
-		if !tokens && cr.req >= 0 {
-			s.Reqs[cr.req].Unsure = true
+		if !tokens && k >= 0 {
+			s.Reqs[s.Codes[k].Req].Unsure = true
 		}
 		if v.expect == "refuse" {
 			v.rule = "f-" + v.rule
@@ -1411,13 +836,13 @@ func (p *part) exchange(r *rig.Rig, s *S, f []string, fp *faultPlan) engine.Resu
 	switch {
 	case v.expect == "refuse" && tokens:
 		return engine.Bad(v.rule, obs, "C04/"+v.conj+"/"+rn+"/"+v.class,
-			fmt.Sprintf("token endpoint handed out tokens although conjunct %q is false (%s): code=%s caller=%s uri=%s %q verifier=%s %q request=%s",
-				v.conj, v.class, f[1], ca.label, uri, vals, ver, pv, describe(rq)))
+			fmt.Sprintf("token endpoint handed out tokens although conjunct %q is false (%s): code=%s caller=%s uri=%s verifier=%s request=%s",
+				v.conj, v.class, f[1], ca.label, uri, ver, describe(rq)))
 	case v.expect == "serve" && !tokens:
 		return engine.Bad(v.rule, obs, "C04/baseline-refused/"+rn+"/exchange",
 			fmt.Sprintf("fully correct exchange was refused: caller=%s request=%s → %d %s %s", ca.label, describe(rq), resp.Status, clip(resp.Body), resp.Panic))
 	}
-	if tokens && cr.kind == "issued" {
+	if tokens && k >= 0 {
 		if field, detail := p.content(r, s, resp, rq, faulted); field != "" {
 			return engine.Bad(v.rule, "tokens-wrong-content", "C04/token-content/"+rn+"/"+field, detail)
 		}
@@ -1426,7 +851,7 @@ func (p *part) exchange(r *rig.Rig, s *S, f []string, fp *faultPlan) engine.Resu
 }
 
 func describe(rq mreq) string {
-	return fmt.Sprintf("{client=%s challenge=%s slot=%d uri=%s done=%v consumed=%v}", rq.Client, rq.Ch, rq.Slot, rq.URI, rq.Done, rq.Gone)
+	return fmt.Sprintf("{client=%s challenge=%s slot=%d done=%v consumed=%v}", rq.Client, rq.Ch, rq.Slot, rq.Done, rq.Gone)
 }
 
 // content checks that issued tokens carry subject, client, scopes and nonce of
@@ -1559,7 +984,7 @@ func canon(s S) string {
 	reqIdx := map[string]int{}
 	for i, r := range s.Reqs {
 		reqIdx[r.ID] = i
-		fmt.Fprintf(&b, "R%d{%s %s %d %s %v %v %v|", i, r.Client, r.Ch, r.Slot, r.URI, r.Done, r.Gone, r.Unsure)
+		fmt.Fprintf(&b, "R%d{%s %s %d %v %v %v|", i, r.Client, r.Ch, r.Slot, r.Done, r.Gone, r.Unsure)
 		if a, ok := s.St.AuthReqs[r.ID]; ok {
 			ch := "-"
 			if a.Challenge != nil {
@@ -1616,9 +1041,7 @@ func TestCheck(t *testing.T) {
 	c.Assume(
 		"refstore is a correct op.Storage (SaveAuthCode/AuthRequestByCode/DeleteAuthRequest as documented)",
 		"codes and request ids are only compared for equality by provider and storage (α-renaming in the canonical form)",
-		"all steps happen at one fake instant (synctest bubble, Epoch+1h); neither the library (op.AuthRequestByCode, CodeExchange, LegacyServer.CodeExchange, CreateTokenResponse) nor refstore enforces a code lifetime or an authorization-request expiry - op.Storage leaves it to the storage - so there is no clock dimension",
-		"a code_challenge_method the statement does not define (\"s256\", \"S512\"): an exchange whose verifier matches the challenge under plain or under S256 is left open (the library stores the method verbatim and compares such challenges as plain); a verifier that matches under neither must be refused",
-		"a redirect_uri that differs from the request's only in the case of scheme / host, or a repeated redirect_uri parameter one of whose values is right, is left open; every other difference (path case, %2F, trailing slash or space, ...) must be refused",
+		"all steps happen at one fake instant (synctest bubble, Epoch+1h); code expiry is the storage's business and not modelled",
 		"access tokens are opaque (AES-sealed token id); the stored token record stands in for introspection",
 	)
 	// thorough: the wide alphabet (3 requests, 4 codes, method-less challenge) to depth 7 and, as
@@ -1662,7 +1085,7 @@ func TestCheck(t *testing.T) {
 		}
 	}
 	// faulty operations: exactly one storage call of a callback / exchange fails
-	kinds := engine.Pick(c, []string{"plain", "oidc"}, []string{"plain", "oidc", "deadline", "canceled"})
+	kinds := engine.Pick(c, []string{"plain"}, []string{"plain", "deadline"})
 	for router := 0; router < 2; router++ {
 		parts = append(parts, &part{
 			name: rig.Routers[router] + "-fault", router: router,
@@ -1683,72 +1106,11 @@ func TestCheck(t *testing.T) {
 			chans: []string{"gtq", "allq"},
 		})
 	}
-	// near-miss strings: redirect_uri / code_verifier / code variants produced by generators from the
-	// right value, deviation bound 1 around the owner's fully correct exchange. Request owners:
-	// confidential and public (the latter also with a loopback redirect_uri on an unregistered
-	// port); challenges none / S256 / plain; slot 0 has a 128, slot 1 a 43 character verifier.
-	for router := 0; router < 2; router++ {
-		parts = append(parts, &part{
-			name: rig.Routers[router] + "-near", router: router, near: true, loopURIs: true,
-			authClients: engine.Pick(c, []string{"web", "pub"}, []string{"web", "pub", "jwt", "post"}), chs: []string{"none", "S256", "plain"},
-			callers: callersFor("web/right", "pub", "jwt/right", "post/right", "web2"),
-			uris:    []string{"right", "other"},
-			maxReqs: 2, maxAlive: 2, maxPerReq: 1, maxCodes: 2, depth: engine.Pick(c, 7, 8),
-		})
-	}
-	// client identity near misses: ids that are prefixes / suffixes / case variants of each other
-	// registered side by side, as request owners and as callers; secrets of the sibling client;
-	// Basic credentials / assertion of one client + form client_id of the code's owner.
-	for router := 0; router < 2; router++ {
-		parts = append(parts, &part{
-			name: rig.Routers[router] + "-ids", router: router, mkCfg: idsConfig,
-			authClients: []string{"web", "web2", "Web", "we", "pub", "Pub", "jwt", "jwt2"}, chs: []string{"none", "S256"},
-			callers: callersFor("web/right", "web/swap", "web2/right", "web2/swap", "Web/right", "Web/swap", "we/right", "we/swap", "xweb/right",
-				"pub/right", "Pub/right", "pub2/right", "jwt/right", "jwt2/right", "jwt2/wrong", "web2+owner", "jwt+owner", "anon"),
-			uris:    []string{"right"},
-			maxReqs: 2, maxAlive: 2, maxPerReq: 1, maxCodes: 2, depth: engine.Pick(c, 6, 7),
-		})
-	}
-	// enum product: code_challenge_method {no challenge, S256, plain, absent, "s256", undefined} x
-	// op.Config.CodeMethodS256 on / off x client authentication method (all four) x application type
-	// (web, native, user agent): one client per (method, type) as owner and as caller.
-	for router := 0; router < 2; router++ {
-		for _, off := range []bool{false, true} {
-			name := rig.Routers[router] + "-enum-s256on"
-			if off {
-				name = rig.Routers[router] + "-enum-s256off"
-			}
-			var cs []string
-			for _, id := range enumClients() {
-				if strings.Contains(id, "-none-") {
-					cs = append(cs, id+"/right")
-				} else {
-					cs = append(cs, id+"/right", id+"/wrong", id+"/none")
-				}
-			}
-			parts = append(parts, &part{
-				name: name, router: router, mkCfg: enumConfig, s256Off: off, plainS2: true,
-				authClients: enumClients(), chs: []string{"none", "S256", "plain", "nomethod", "s256lc", "S512"},
-				callers: callersFor(cs...),
-				uris:    []string{"right", "other"},
-				maxReqs: 1, maxAlive: 1, maxPerReq: 1, maxCodes: 1, depth: 5,
-			})
-		}
-	}
 	fcov := map[string]map[string]int{}
-	ncov := map[string]map[string]int{}
-	if only := os.Getenv("VERIF_C04_ONLY"); only != "" { // development aid: parts whose name contains the value; never exhaustive
-		c.Cap("VERIF_C04_ONLY=" + only + ": only a subset of the parts was run")
-		parts = slices.DeleteFunc(parts, func(p *part) bool { return !strings.Contains(p.name, only) })
-	}
 	for _, p := range parts {
-		p.c, p.fcov, p.cfg = c, map[string]int{}, p.config()
+		p.c, p.fcov = c, map[string]int{}
 		if p.maxFaults > 0 {
 			fcov[p.name] = p.fcov
-		}
-		if p.near || p.plainS2 {
-			p.ncov = map[string]int{}
-			ncov[p.name] = p.ncov
 		}
 		engine.RunE2(c, engine.E2[S]{
 			Part:      p.name,
@@ -1762,6 +1124,4 @@ func TestCheck(t *testing.T) {
 	}
 	// per fault part: "<C|X> <storage method> <error kind> -> <observed outcome>" -> executions in which that fault fired
 	c.Extra("fault_coverage", fcov)
-	// per near part: "<parameter> <variant>" -> exchanges that presented it
-	c.Extra("near_miss_coverage", ncov)
 }
